@@ -8,6 +8,7 @@ mod gen;
 mod props;
 mod refjson;
 mod subj;
+mod walk;
 
 use std::path::PathBuf;
 
